@@ -1623,12 +1623,25 @@ def _assert_discharged(ctx, fi: FuncInfo, a: ast.Assert) -> tuple[bool, str]:
 # --------------------------------------------------------------------------- R-REBUILD
 
 
+def _norm_desc(d):
+    """zip(X, range(..)) numbers X by position: the same map as enumerate(X)"""
+    if isinstance(d, tuple) and d and d[0] == "zip":
+        b = d[2].replace(" ", "")
+        if b.startswith("range(") or b.startswith("list(range("):
+            return ("enum", d[1])
+    return d
+
+
 def _mapping_descriptor(fi: FuncInfo, e: ast.expr, depth=0):
+    return _norm_desc(_mapping_descriptor0(fi, e, depth))
+
+
+def _mapping_descriptor0(fi: FuncInfo, e: ast.expr, depth=0):
     """descriptor of an old->new label map: ('zip', A, B) for dict(zip(A, B)); ('enum', X) for {old: new for new, old in enumerate(X)}"""
     if depth > 4 or e is None:
         return None
     if isinstance(e, ast.Name):
-        return _mapping_descriptor(fi, single_def(fi.node, e.id), depth + 1)
+        return _mapping_descriptor0(fi, single_def(fi.node, e.id), depth + 1)
     if isinstance(e, ast.Call) and isinstance(e.func, ast.Name) and e.func.id == "dict" and e.args:
         z = e.args[0]
         if isinstance(z, ast.Call) and isinstance(z.func, ast.Name) and z.func.id == "zip" and len(z.args) == 2:
@@ -1663,11 +1676,23 @@ def r_rebuild(ctx) -> RuleResult:
                     continue
                 addn = [c for c in own_walk(fn) if isinstance(c, ast.Call) and isinstance(c.func, ast.Attribute) and c.func.attr == "add_nodes_from" and isinstance(c.func.value, ast.Name) and c.func.value.id == name]
                 adde = [c for c in own_walk(fn) if isinstance(c, ast.Call) and isinstance(c.func, ast.Attribute) and c.func.attr == "add_edges_from" and isinstance(c.func.value, ast.Name) and c.func.value.id == name]
-                if not addn or not adde:
+                node_src = addn[0].args[0] if addn and addn[0].args else None
+                if not addn:
+                    # `for ..: G.add_node(label, **src.nodes[key])`  ==  add_nodes_from((label, src.nodes[key]) for ..)
+                    for lp in [x for x in own_walk(fn) if isinstance(x, ast.For)]:
+                        for c in ast.walk(lp):
+                            if isinstance(c, ast.Call) and isinstance(c.func, ast.Attribute) and c.func.attr == "add_node" and isinstance(c.func.value, ast.Name) and c.func.value.id == name and c.args:
+                                data = next((k.value for k in c.keywords if k.arg is None), None)
+                                if data is not None:
+                                    node_src = ast.GeneratorExp(ast.Tuple([c.args[0], data], ast.Load()), [ast.comprehension(lp.target, lp.iter, [], 0)])
+                                    ast.copy_location(node_src, c)
+                                    ast.fix_missing_locations(node_src)
+                                    addn = [c]
+                if not addn or not adde or node_src is None:
                     continue
                 n += 1
-                nmap = _node_label_map(fi, addn[0].args[0])
-                emap = _edge_label_map(fi, adde[0].args[0])
+                nmap = _norm_desc(_node_label_map(fi, node_src))
+                emap = _norm_desc(_edge_label_map(fi, adde[0].args[0]))
                 if nmap is None or emap is None:
                     raise AnalysisError(f"R-REBUILD: cannot see how `{short(addn[0], 60)}` / `{short(adde[0], 60)}` in {fi.qualname} name the atoms")
                 ok = nmap == emap
